@@ -154,7 +154,7 @@ fn cli_run_ident(dir: &std::path::Path, args: &[&str], version: (u8, u8, u8), mo
 }
 
 /// Run the real glonax-input on a FIFO of js_event records against a stub daemon; returns (session flags, bytes sent after the handshake).
-fn input_e2e(dir: &std::path::Path, mode: &str, full_motion: bool, recs: &[[u8; 8]]) -> Option<(u8, Vec<u8>)> {
+fn input_e2e(dir: &std::path::Path, mode: &str, full_motion: bool, recs: &[[u8; 8]], one_write: bool) -> Option<(u8, Vec<u8>)> {
     let sock = dir.join("i.sock");
     let fifo = dir.join("js0");
     let _ = std::fs::remove_file(&sock);
@@ -187,8 +187,16 @@ fn input_e2e(dir: &std::path::Path, mode: &str, full_motion: bool, recs: &[[u8; 
     let inst = glonax::core::Instance::new("d55bcd75-8d30-49af-ac18-ee7cbce7822f", "stub", glonax::core::MachineType::Excavator, (3, 5, 0), "S");
     use glonax::protocol::Packetize;
     s.write_all(&sess::frame(0x15, &inst.to_bytes())).ok()?;
-    for r in recs {
-        w.write_all(r).ok()?;
+    if one_write {
+        // all records in the reader's buffer at once (a burst: at most 4096 bytes go into the FIFO atomically)
+        let all: Vec<u8> = recs.iter().flat_map(|r| r.iter().copied()).collect();
+        for chunk in all.chunks(4096) {
+            w.write_all(chunk).ok()?;
+        }
+    } else {
+        for r in recs {
+            w.write_all(r).ok()?;
+        }
     }
     w.flush().ok()?;
     // closing the FIFO makes next_event fail with EOF: the process exits and closes the socket
@@ -390,7 +398,7 @@ pub fn run(out: &mut Out, tier: &str, rng: &mut Rng) {
                         let v = if ty & 1 == 1 { rng.below(2) as i16 } else { *rng.pick(&values) };
                         recs.push(record(ty, number, v, i as u32));
                     }
-                    match input_e2e(&dir, mode, fm, &recs) {
+                    match input_e2e(&dir, mode, fm, &recs, rep % 2 == 1) {
                         Some((flags, bytes)) => {
                             out.count("e2e glonax-input");
                             out.case(&format!("e2e {} {} {}", mode, fm as u8, recs.iter().map(|r| hex(r)).collect::<Vec<_>>().join(" ")), &format!("{} {}", flags, hex(&bytes)), true);
@@ -398,6 +406,30 @@ pub fn run(out: &mut Out, tier: &str, rng: &mut Rng) {
                         None => out.note("glonax-input end-to-end run could not be set up".into()),
                     }
                 }
+            }
+        }
+    }
+    // a burst: every button pressed with a sample of the axis of the SAME number right behind it in the reader's buffer
+    // (the reader may not merge, reorder or drop records: what is forwarded is what the record sequence says)
+    if !missing {
+        for mode in MODES {
+            let mut recs: Vec<[u8; 8]> = vec![record(1, 1, 1, 0), record(1, 1, 0, 1)];
+            for ax in 0..6u8 {
+                recs.push(record(2, ax, 10_000, 2 + ax as u32));
+            }
+            for b in 0..8u8 {
+                recs.push(record(1, b, 1, 10 + b as u32));
+                recs.push(record(2, b, 10_050 + b as i16, 20 + b as u32));
+                recs.push(record(1, b, 0, 30 + b as u32));
+                recs.push(record(2, b, 10_100, 40 + b as u32));
+                recs.push(record(2, b, -10_100, 50 + b as u32));
+            }
+            match input_e2e(&dir, mode, false, &recs, true) {
+                Some((flags, bytes)) => {
+                    out.count("e2e glonax-input burst");
+                    out.case(&format!("e2e {} {} {}", mode, 0, recs.iter().map(|r| hex(r)).collect::<Vec<_>>().join(" ")), &format!("{} {}", flags, hex(&bytes)), true);
+                }
+                None => out.note("glonax-input end-to-end run could not be set up".into()),
             }
         }
     }
